@@ -5,6 +5,7 @@ import (
 	"encoding/json"
 	"fmt"
 	"io"
+	"math"
 	"reflect"
 	"regexp"
 	"strings"
@@ -77,7 +78,7 @@ var xsdDur = regexp.MustCompile(`^-?P(\d+Y)?(\d+M)?(\d+D)?(T(\d+H)?(\d+M)?(\d+(\
 
 // c02CheckObject compares one struct value with the JSON object the library wrote for it, field by field,
 // using only reflection on the struct (jsonld tags) and encoding/json's decoding of the output.
-func c02CheckObject(rv reflect.Value, m map[string]json.RawMessage, fail func(what, obs string), failStr func(what, obs, held string)) {
+func c02CheckObject(rv reflect.Value, m map[string]json.RawMessage, fail func(what, obs string), failStr func(what, obs, held, got string)) {
 	rt := rv.Type()
 	declared := map[string]bool{}
 	for i := 0; i < rt.NumField(); i++ {
@@ -119,7 +120,7 @@ func c02CheckObject(rv reflect.Value, m map[string]json.RawMessage, fail func(wh
 			if err := json.Unmarshal(raw, &s); err != nil {
 				fail("property "+term+" is a JSON string", string(raw))
 			} else if utf8.ValidString(fv.String()) && s != fv.String() {
-				failStr("string property "+term+" decodes back to exactly the bytes the value held", fmt.Sprintf("held %q, document says %q", fv.String(), s), fv.String())
+				failStr("string property "+term+" decodes back to exactly the bytes the value held", fmt.Sprintf("held %q, document says %q", fv.String(), s), fv.String(), s)
 			}
 		case f.Type.Kind() == reflect.Bool:
 			if s := string(raw); s != "true" && s != "false" {
@@ -148,6 +149,58 @@ func c02CheckObject(rv reflect.Value, m map[string]json.RawMessage, fail func(wh
 			fail("every member is a term the type declares", "member "+k)
 		}
 	}
+	// the same for every embedded object that is written as a JSON object under the property's term (one embedded value
+	// in an item-valued property, and the members of a list paired one to one when their number agrees)
+	for i := 0; i < rt.NumField(); i++ {
+		f := rt.Field(i)
+		term := strings.Split(f.Tag.Get("jsonld"), ",")[0]
+		raw, present := m[term]
+		if term == "" || !present || len(raw) == 0 {
+			continue
+		}
+		var members []reflect.Value
+		fv := rv.Field(i)
+		switch {
+		case f.Type == tItems:
+			for j := 0; j < fv.Len(); j++ {
+				members = append(members, fv.Index(j))
+			}
+		case f.Type.Kind() == reflect.Interface && !fv.IsNil():
+			if l, ok := fv.Interface().(ap.ItemCollection); ok {
+				for j := range l {
+					members = append(members, reflect.ValueOf(&l[j]).Elem())
+				}
+			} else {
+				members = []reflect.Value{fv}
+			}
+		}
+		var raws []json.RawMessage
+		if raw[0] == '[' {
+			if json.Unmarshal(raw, &raws) != nil || len(raws) != len(members) {
+				continue
+			}
+		} else if len(members) == 1 {
+			raws = []json.RawMessage{raw}
+		} else {
+			continue
+		}
+		for j, mv := range members {
+			for mv.Kind() == reflect.Interface || mv.Kind() == reflect.Pointer {
+				if mv.IsNil() {
+					break
+				}
+				mv = mv.Elem()
+			}
+			if mv.Kind() != reflect.Struct || len(raws[j]) == 0 || raws[j][0] != '{' {
+				continue
+			}
+			var mm map[string]json.RawMessage
+			if json.Unmarshal(raws[j], &mm) == nil {
+				c02CheckObject(mv, mm, func(what, obs string) { fail(what+" (embedded under "+term+")", obs) },
+					func(what, obs, held, got string) { failStr(what+" (embedded under "+term+")", obs, held, got) })
+			}
+		}
+	}
 }
 
 func c02Native(it ap.Item, out []byte, rep *Report, idx int) {
@@ -157,9 +210,11 @@ func c02Native(it ap.Item, out []byte, rep *Report, idx int) {
 	}
 	// the one open finding: escapeQuote keeps backslash-quote as an "already escaped quote" (pinned by
 	// TestJSONWriteStringValue), so exactly such strings decode without the backslash
-	failStr := func(what, obs, held string) {
+	failStr := func(what, obs, held, got string) {
+		// the class of the open finding: the document says exactly the held string with every backslash-quote pair
+		// reduced to the quote - any other difference on such a string is reported as a violation of its own
 		cls := ""
-		if strings.Contains(held, "\\\"") {
+		if strings.Contains(held, "\\\"") && got == strings.ReplaceAll(held, "\\\"", "\"") {
 			cls = "backslash-quote-kept"
 		}
 		rep.Violate(Violation{Op: "MarshalJSON", Input: term, Expected: what, Observed: obs, Index: idx, Class: cls})
@@ -189,7 +244,7 @@ func c02Native(it ap.Item, out []byte, rep *Report, idx int) {
 }
 
 func runC02(seed int64, n int, tier string, outDir string) (*Report, error) {
-	rep := &Report{Rule: "(plus a directed block: language maps with repeated / colliding tags in five positions, and hostile documents with a repeated language tag decoded and re-serialised) structured values of all 14 struct kinds (value and pointer form, nesting depth <= 2, each field set with probability 1/3) with every string-typed property (ids, IRIs, types, media types, language tags, units, key material, natural-language text) drawn half of the time from a hostile pool (quotes, backslashes, control bytes, invalid UTF-8, JSON fragments, injection attempts); each output is compared byte for byte with the model encoder inside Coq, and natively checked with encoding/json: validity, duplicate members at every depth, every member a declared term, JSON kind per Go type, exact string decoding; non-trivial = value has at least 3 members and one hostile string; distinct by canonical term"}
+	rep := &Report{Rule: "(plus a directed block: language maps with repeated / colliding tags in five positions, and hostile documents with a repeated language tag decoded and re-serialised) structured values of all 14 struct kinds (value and pointer form, nesting depth <= 2, each field set with probability 1/3) with every string-typed property (ids, IRIs, types, media types, language tags, units, key material, natural-language text) drawn half of the time from a hostile pool (quotes, backslashes, control bytes, invalid UTF-8, JSON fragments, injection attempts); each output is compared with the model encoder inside Coq by length and checksum (two Adler sums + a polynomial hash), and natively checked with encoding/json: validity, duplicate members at every depth, every member a declared term, JSON kind per Go type, exact string decoding; non-trivial = value has at least 3 members and one hostile string; distinct by canonical term"}
 	g := NewGen(seed, "C02")
 	hdr := "From AP.Model Require Import Prelude Vocab Json JsonLeaf JsonTables JsonEnc.\nFrom AP.Gen Require Import JsonW.\n" +
 		"Definition ok (c : item * (N * N)) : bool := let '(i, o) := c in\n" +
@@ -388,6 +443,46 @@ func runC02(seed int64, n int, tier string, outDir string) (*Report, error) {
 		rep.Evaluations++
 		if err == nil && len(out) > 0 && !json.Valid(out) {
 			rep.Violate(Violation{Op: "activitypub.MarshalJSON", Input: CoqItem(it), Expected: "valid JSON", Observed: string(out), Index: i})
+		} else if err == nil && len(out) > 0 {
+			// the wrapper adds "@context" in front: everything else is judged like the method's output
+			var m map[string]json.RawMessage
+			if json.Unmarshal(out, &m) == nil {
+				delete(m, "@context")
+				if b, e := json.Marshal(m); e == nil {
+					if k, dup := jsonDupKeys(out); dup {
+						rep.Violate(Violation{Op: "activitypub.MarshalJSON", Input: CoqItem(it), Expected: "no object repeats a member name", Observed: "member " + k, Index: i})
+					}
+					c02Native(it, b, rep, 300000+i)
+				}
+			}
+		}
+	}
+	// numbers and instants JSON / RFC 3339 cannot express, and IRI lists with hostile members (native only: the model's
+	// numbers are fixed-point and its instants lie in the years 0000-9999)
+	{
+		h := []ap.IRI{"https://example.com/a", `a"b`, `back\\slash`, "line\nfeed", "caf\u00e9", "bad\xffutf8", `http://x/","type":"Delete`, "\u2028", ""}
+		vals := []ap.Item{
+			&ap.Place{ID: "https://example.com/p", Type: ap.PlaceType, Latitude: math.NaN(), Longitude: math.Inf(1), Altitude: math.Inf(-1), Accuracy: 1e300, Radius: 5},
+			&ap.Place{Type: ap.PlaceType, Latitude: -0.0, Longitude: 5e-324, Altitude: math.MaxFloat64},
+			&ap.Object{ID: "https://example.com/o", Type: ap.NoteType, Published: time.Date(10000, 1, 1, 0, 0, 0, 0, time.UTC), Updated: time.Date(-1, 1, 1, 0, 0, 0, 0, time.UTC),
+				StartTime: time.Date(9999, 12, 31, 23, 59, 59, 0, time.UTC), EndTime: time.Date(0, 1, 1, 0, 0, 0, 0, time.UTC)},
+			&ap.Tombstone{ID: "https://example.com/t", Type: ap.TombstoneType, Deleted: time.Date(292277026596, 12, 4, 15, 30, 7, 0, time.UTC)},
+			ap.IRIs(h), &ap.Object{ID: "https://example.com/o", Type: ap.NoteType, InReplyTo: ap.IRIs(h), To: ap.ItemCollection{ap.IRIs(h[:3]), h[1]}},
+			&ap.Activity{ID: "https://example.com/c", Type: ap.CreateType, Object: ap.IRIs(h[:2]), Actor: ap.IRIs{h[0]}},
+		}
+		for j, it := range vals {
+			var out []byte
+			var err error
+			if p := c03Recover(func() { out, err = it.(json.Marshaler).MarshalJSON() }); p != nil {
+				rep.Violate(Violation{Op: "MarshalJSON", Input: fmt.Sprintf("%#v", it), Expected: "no panic", Observed: fmt.Sprint(p)})
+				continue
+			}
+			rep.Evaluations++
+			rep.Count("directed:inexpressible-numbers-instants-iri-lists")
+			if err != nil {
+				rep.Violate(Violation{Op: "MarshalJSON", Input: fmt.Sprintf("%#v", it), Expected: "no error", Observed: err.Error()})
+			}
+			c02Native(it, out, rep, 400000+j)
 		}
 	}
 	if err := rep.AddCases(cw); err != nil {
